@@ -51,8 +51,8 @@ def spawn_worker(args):
 
 def engine_a(rep, tier, seed, cov):
     rng = core.stream(core.run_seed(seed, "c21a", 0), "fault")
-    wls = ["cl_mgvi", "cl_geovi", "cl_map", "jax_vi", "draws"]
-    nhs, nparam = (4, 1) if tier == "quick" else (10, 6)
+    wls = ["cl_mgvi", "cl_geovi", "cl_map", "cl_multi_lh", "cl_multi_lh_geovi", "jax_vi", "draws"]
+    nhs, nparam = (5, 1) if tier == "quick" else (10, 6)
     jobs = []
     for wl in wls:
         for pi in range(nparam):
